@@ -81,7 +81,7 @@ func (r *Run) Fork(n int) bool {
 			defer os.Remove(out)
 			args := append([]string{"check", r.ID, r.Tier}, r.Args...)
 			cmd := exec.Command(exe, args...)
-			cmd.Env = append(os.Environ(), fmt.Sprintf("VERIF_SHARD=%d/%d", i, n), "VERIF_SHARD_OUT="+out, "GOMAXPROCS=2")
+			cmd.Env = append(os.Environ(), fmt.Sprintf("VERIF_SHARD=%d/%d", i, n), "VERIF_SHARD_OUT="+out, fmt.Sprintf("GOMAXPROCS=%d", r.childProcs()))
 			cmd.Stderr = os.Stderr
 			if b, err := cmd.Output(); err != nil {
 				r.HarnessError("shard %d/%d failed: %v\n%s", i, n, err, clipS(string(b), 2000))
@@ -200,4 +200,11 @@ func (r *Run) finishShard() int {
 		return 2
 	}
 	return 0
+}
+
+func (r *Run) childProcs() int {
+	if r.ChildGOMAXPROCS > 0 {
+		return r.ChildGOMAXPROCS
+	}
+	return 2
 }
